@@ -7,6 +7,12 @@
  *     refuse:D   fail with ECONNREFUSED, D seconds after the call (interruptible: EINTR if a signal arrives first)
  *   VERIF_CONNECT_LOG    = file; one line "connect <addr> <hang|refuse|real>" per call (optional)
  *
+ *   VERIF_POLL_RACE_ADDR = a.b.c.d    the thread whose poll() covers a socket connected to that address is HELD at the
+ *                entry of poll() -- when nothing is ready yet -- until pthread_kill(that thread, SIGALRM) has been
+ *                called once (at most 12 s): the signal finds the thread outside its blocking call (pdsh's handler is
+ *                a no-op: the signal is lost), the poll then blocks.  A watchdog that signals an overdue worker every
+ *                period gets it out one period later; one that signals once per phase never does.
+ *
  * Everything else is the real libc.  The unmodified pdsh and its dlopen'ed rsh module (xrcmd.c) run on top. */
 #define _GNU_SOURCE
 #include <arpa/inet.h>
@@ -21,6 +27,72 @@
 #include <sys/socket.h>
 #include <time.h>
 #include <unistd.h>
+#include <poll.h>
+#include <pthread.h>
+
+/* threads that have been sent SIGALRM (pthread_kill interposed below) */
+#define MAXALARMED 64
+static pthread_t alarmed[MAXALARMED];
+static volatile int nalarmed;
+static pthread_mutex_t alarmed_mx = PTHREAD_MUTEX_INITIALIZER;
+
+int pthread_kill(pthread_t t, int sig)
+{
+    static int (*real) (pthread_t, int);
+    int rc;
+    if (!real) real = dlsym(RTLD_NEXT, "pthread_kill");
+    rc = real(t, sig);
+    if (sig == SIGALRM && getenv("VERIF_POLL_RACE_ADDR")) {
+        pthread_mutex_lock(&alarmed_mx);
+        if (nalarmed < MAXALARMED) alarmed[nalarmed++] = t;
+        pthread_mutex_unlock(&alarmed_mx);
+    }
+    return rc;
+}
+
+static int was_alarmed(pthread_t t)
+{
+    int i, r = 0;
+    pthread_mutex_lock(&alarmed_mx);
+    for (i = 0; i < nalarmed; i++)
+        if (pthread_equal(alarmed[i], t)) r = 1;
+    pthread_mutex_unlock(&alarmed_mx);
+    return r;
+}
+
+int poll(struct pollfd *fds, nfds_t n, int timeout)
+{
+    static int (*real) (struct pollfd *, nfds_t, int);
+    const char *victim = getenv("VERIF_POLL_RACE_ADDR");
+    if (!real) real = dlsym(RTLD_NEXT, "poll");
+    if (victim && timeout != 0 && !was_alarmed(pthread_self())) {
+        nfds_t i;
+        int mine = 0, other = 0;
+        /* only the poll of the relay loop: every polled descriptor is a connection to the victim (the circuit setup
+         * of the rsh protocol also polls a listening socket: not held) */
+        for (i = 0; i < n; i++) {
+            struct sockaddr_in sin;
+            socklen_t sl = sizeof sin;
+            char addr[64];
+            if (fds[i].fd < 0) continue;
+            if (getpeername(fds[i].fd, (struct sockaddr *) &sin, &sl) < 0 || sin.sin_family != AF_INET) { other = 1; continue; }
+            inet_ntop(AF_INET, &sin.sin_addr, addr, sizeof addr);
+            if (strcmp(addr, victim) == 0) mine = 1; else other = 1;
+        }
+        if (mine && !other && real(fds, n, 0) == 0) {
+            /* nothing ready: hold the entry (signals do not end the hold) until this thread has been sent SIGALRM */
+            struct timespec t0, now, nap = { 0, 20 * 1000 * 1000 };
+            clock_gettime(CLOCK_MONOTONIC, &t0);
+            for (;;) {
+                if (was_alarmed(pthread_self())) break;
+                clock_gettime(CLOCK_MONOTONIC, &now);
+                if (now.tv_sec - t0.tv_sec >= 12) break;
+                nanosleep(&nap, NULL);
+            }
+        }
+    }
+    return real(fds, n, timeout);
+}
 
 static void logline(const char *addr, const char *what)
 {
